@@ -221,8 +221,7 @@ pub fn check_louvain(b: &Built, rec: &Recorder, c: &mut Counters, p: &Params) ->
                     c.addn("executions", st.executions);
                     c.addn("choice_points", st.choice_points);
                     if st.divergences > 0 {
-                        eprintln!("MACHINERY-ERROR: choice replay diverged on {sub}");
-                        std::process::exit(2);
+                        c.inc("choice_replay_divergences");
                     }
                     if st.truncated {
                         c.inc("inputs_truncated_by_budget");
@@ -356,6 +355,9 @@ pub fn run(tier: &str, rec: &Recorder) -> RunOutput {
     out.set("rule", "every labelled graph with >= 1 edge of each family (all kinds n<=3, undirected n<=4/5, directed n<=4; unweighted and weights {1,2}) x weighted flag x resolution in {0.5,1,2} x threshold in {0,1e-7,0.1} x seeds; per input E3 explores the iteration order of the candidate-community map at every visit (deviation bound as reported, all permutations per point); the observer hook yields the (level, node->community) state at the top of every sweep: a repeated state after the dictated choices are consumed is a lasso, more than 100 n^2 + 100 sweeps is the horizon; termination is reported only if no explored order terminates and the free-running code (real hash orders, several hash seeds) does not either. states/transitions = sweep states observed; input_graphs = graphs");
     for k in ["executions", "sweeps_observed", "inputs_with_choice_points"] {
         out.require_nonzero(k);
+    }
+    if out.get("choice_replay_divergences") > 0 {
+        out.machinery_errors.push(format!("choice replay diverged on {} inputs: the code under test depends on nondeterminism the order seams do not own (see C17)", out.get("choice_replay_divergences")));
     }
     out.assumptions = vec![
         "modularity monotonicity is asserted on single-edge graphs only (as the statement), with the harness's own Newman implementation on the input graph".into(),
